@@ -8,10 +8,17 @@
    Hypotheses: Inv1a (C01 containment), Inv2a (C02 reference sets), WFk (well-kinded, allocated),
    WFc (pins and wires point at each other; a wire touches only port pins of its own definition and
    pins of that definition's children), acyclic, the top instance is a proper root (it may also be
-   a child of a definition outside the design). All of them are evaluated (booleans inv1a_b, inv2a_b, wfk_b, wfc_b, acyclic_b) on every netlist of the correspondence run. *)
+   a child of a definition outside the design). All of them are evaluated (booleans inv1a_b, inv2a_b, wfk_b, wfc_b, acyclic_b) on every netlist of the correspondence run.
+
+   Contents: generic closure; selection ALL from wire / pin / port / cable starts (get_hwires and
+   get_hcables), symmetric; absence of duplicates (any heap, any selection, any object searched);
+   get_hcables = the cables of get_hwires (any heap, any selection); the narrow selections INSIDE /
+   OUTSIDE / BOTH from pin / wire / port / cable starts; pins of a wire; the full statement C12_full
+   with its proof C12_full_holds, and C12_full_nodup_holds ("each once" in every conjunct). *)
 From Coq Require Import List Arith Bool.
 From SV Require Import Base.Base IR.State Proofs.Inv1a Proofs.Inv2a Hier.Paths Hier.Enum Hier.Trace Hier.Conn
-  Proofs.HierClosure Proofs.HierTrace Proofs.HierNarrow Proofs.HierTraceEx.
+  Proofs.HierClosure Proofs.HierTrace Proofs.HierNarrow Proofs.HierTraceEx
+  Proofs.HierTracePort Proofs.HierTraceCable Proofs.HierCables Proofs.HierNarrowStarts Proofs.HierCablesEx.
 Import ListNotations.
 
 (* ---- the generic closure: a work list with a visited set over a finite universe returns exactly
@@ -112,9 +119,191 @@ Example C12_hypotheses_satisfiable_example :
     top s n = Some t /\ all_hwires s n = Some U /\ hwire_occ s t x /\ Conn.conn s t x y /\ x <> y.
 Proof. exact C12_hypotheses_satisfiable. Qed.
 
-(* ---- full statement: also for port and cable starts (unions over their pins / wires) and for
-        get_hcables; these two are covered by the correspondence run and the union-find oracle,
-        not by a Coq proof ---- *)
+(* ---- PORT and CABLE starts, selection ALL: the union over the pins of the port / the wires of the
+        cable of the classes above, each wire occurrence once ---- *)
+Theorem C12_all_from_port : forall s t,
+  Inv1a s -> Inv2a s -> WFk s -> WFc s -> is_root s t ->
+  forall n U q x p, acyclic s -> top s n = Some t -> all_hwires s n = Some U ->
+  is_rpath s t (x :: p) -> In q (ports_of s x) ->
+  exists l, get_hwires s SAll false (pin_weight s U) (q :: x :: p) = Some l /\ NoDup l /\
+            (forall b, In b l <-> exists i y, In i (kids s RPins q) /\
+                                              In y (nb_sel s SAll (i :: q :: x :: p)) /\ Conn.conn s t y b).
+Proof. exact get_hwires_ALL_port. Qed.
+Print Assumptions C12_all_from_port.
+
+Theorem C12_all_from_cable : forall s t,
+  Inv1a s -> Inv2a s -> WFk s -> WFc s -> is_root s t ->
+  forall n U c x p, acyclic s -> top s n = Some t -> all_hwires s n = Some U ->
+  is_rpath s t (x :: p) -> In c (cables_of s x) ->
+  exists l, get_hwires s SAll false (pin_weight s U) (c :: x :: p) = Some l /\ NoDup l /\
+            (forall b, In b l <-> exists w, In w (kids s RWires c) /\ Conn.conn s t (w :: c :: x :: p) b).
+Proof. exact get_hwires_ALL_cable. Qed.
+Print Assumptions C12_all_from_cable.
+
+(* ---- no duplicates: in ANY heap, for every selection, every object searched (instances
+        included) and every fuel, an answer of get_hwires / get_hcables never repeats a reference;
+        get_hpins likewise from a pin / port / cable / wire start ---- *)
+Theorem C12_hwires_no_duplicates : forall s x r usum obj l,
+  get_hwires s x r usum obj = Some l -> NoDup l.
+Proof. exact get_hwires_nodup. Qed.
+Print Assumptions C12_hwires_no_duplicates.
+
+Theorem C12_hcables_no_duplicates : forall s x r usum obj l,
+  get_hcables s x r usum obj = Some l -> NoDup l.
+Proof. exact get_hcables_nodup. Qed.
+Print Assumptions C12_hcables_no_duplicates.
+
+Theorem C12_hpins_no_duplicates : forall s r obj l, Inv1a s -> head_not_instance s obj ->
+  get_hpins s r obj = Some l -> NoDup l.
+Proof. exact get_hpins_nodup. Qed.
+Print Assumptions C12_hpins_no_duplicates.
+
+(* ---- get_hcables: in ANY heap, for every selection, from a pin / port / cable / wire start,
+        get_hcables stops exactly when get_hwires does and returns exactly the cables of the wires
+        get_hwires returns (tl b = the reference of wire b without its first item), each once ---- *)
+Theorem C12_hcables_are_cables_of_hwires : forall s x r usum obj lw, head_not_instance s obj ->
+  get_hwires s x r usum obj = Some lw ->
+  exists lc, get_hcables s x r usum obj = Some lc /\ NoDup lc /\
+             (forall k, In k lc <-> exists b, In b lw /\ k = tl b).
+Proof. exact get_hcables_of_get_hwires. Qed.
+Print Assumptions C12_hcables_are_cables_of_hwires.
+
+Theorem C12_hcables_stops_iff_hwires : forall s x r usum obj, head_not_instance s obj ->
+  (get_hcables s x r usum obj = None <-> get_hwires s x r usum obj = None).
+Proof. exact get_hcables_stops_iff_get_hwires. Qed.
+Print Assumptions C12_hcables_stops_iff_hwires.
+
+(* selection ALL: the cables of the connected wire occurrences, from each kind of start *)
+Theorem C12_hcables_from_wire : forall s t,
+  Inv1a s -> Inv2a s -> WFk s -> WFc s -> is_root s t ->
+  forall n U x, acyclic s -> top s n = Some t -> all_hwires s n = Some U -> hwire_occ s t x ->
+  exists l, get_hcables s SAll false (pin_weight s U) x = Some l /\ NoDup l /\
+            (forall k, In k l <-> exists b, Conn.conn s t x b /\ k = tl b).
+Proof. exact get_hcables_ALL_wire. Qed.
+Print Assumptions C12_hcables_from_wire.
+
+Theorem C12_hcables_from_pin : forall s t,
+  Inv1a s -> Inv2a s -> WFk s -> WFc s -> is_root s t ->
+  forall n U a, acyclic s -> top s n = Some t -> all_hwires s n = Some U -> hpin_occ s t a ->
+  exists l, get_hcables s SAll false (pin_weight s U) a = Some l /\ NoDup l /\
+            (forall k, In k l <-> exists x b, In x (nb_sel s SAll a) /\ Conn.conn s t x b /\ k = tl b).
+Proof. exact get_hcables_ALL_pin. Qed.
+Print Assumptions C12_hcables_from_pin.
+
+Theorem C12_hcables_from_port : forall s t,
+  Inv1a s -> Inv2a s -> WFk s -> WFc s -> is_root s t ->
+  forall n U q x p, acyclic s -> top s n = Some t -> all_hwires s n = Some U ->
+  is_rpath s t (x :: p) -> In q (ports_of s x) ->
+  exists l, get_hcables s SAll false (pin_weight s U) (q :: x :: p) = Some l /\ NoDup l /\
+            (forall k, In k l <-> exists i y b, In i (kids s RPins q) /\
+                                                In y (nb_sel s SAll (i :: q :: x :: p)) /\
+                                                Conn.conn s t y b /\ k = tl b).
+Proof. exact get_hcables_ALL_port. Qed.
+Print Assumptions C12_hcables_from_port.
+
+Theorem C12_hcables_from_cable : forall s t,
+  Inv1a s -> Inv2a s -> WFk s -> WFc s -> is_root s t ->
+  forall n U c x p, acyclic s -> top s n = Some t -> all_hwires s n = Some U ->
+  is_rpath s t (x :: p) -> In c (cables_of s x) ->
+  exists l, get_hcables s SAll false (pin_weight s U) (c :: x :: p) = Some l /\ NoDup l /\
+            (forall k, In k l <-> exists w b, In w (kids s RWires c) /\
+                                              Conn.conn s t (w :: c :: x :: p) b /\ k = tl b).
+Proof. exact get_hcables_ALL_cable. Qed.
+Print Assumptions C12_hcables_from_cable.
+
+(* the hypotheses of the port / cable / get_hcables theorems are satisfiable by a design with a
+   two-bit port and a two-wire cable whose bits belong to two nets, each crossing an instance
+   boundary: four wire occurrences from the port and from the cable, two cable occurrences *)
+Example C12_port_cable_hypotheses_satisfiable_example :
+  exists s t n U q x p c x' p' lp lc lk,
+    Inv1a s /\ Inv2a s /\ WFk s /\ WFc s /\ acyclic s /\ is_root s t /\
+    top s n = Some t /\ all_hwires s n = Some U /\
+    is_rpath s t (x :: p) /\ In q (ports_of s x) /\ length (kids s RPins q) = 2 /\
+    is_rpath s t (x' :: p') /\ In c (cables_of s x') /\ length (kids s RWires c) = 2 /\
+    get_hwires s SAll false (pin_weight s U) (q :: x :: p) = Some lp /\ length lp = 4 /\
+    get_hwires s SAll false (pin_weight s U) (c :: x' :: p') = Some lc /\ length lc = 4 /\
+    get_hcables s SAll false (pin_weight s U) (q :: x :: p) = Some lk /\ length lk = 2.
+Proof. exact C12_port_cable_hypotheses_satisfiable. Qed.
+
+(* ---- narrow selections from wire / port / cable starts ----
+   INSIDE from a hierarchical wire: the wire itself and nothing else (equality of lists);
+   OUTSIDE: exactly the wire occurrences ONE boundary crossing away (down through an instance pin
+   on the wire, or up through a port pin of the enclosing instance), never the wire itself;
+   BOTH: the wire and the occurrences one crossing away. Ports: the union over the pins of the port
+   of the wire on the selected side; cables: the union over the wires of the cable. *)
+Theorem C12_inside_from_wire : forall s t, Inv1a s -> Inv2a s -> WFk s -> is_root s t ->
+  forall usum x, hwire_occ s t x -> get_hwires s SInside false usum x = Some [x].
+Proof. exact get_hwires_INSIDE_wire. Qed.
+Print Assumptions C12_inside_from_wire.
+
+Theorem C12_outside_from_wire : forall s t, Inv1a s -> Inv2a s -> WFk s -> is_root s t -> WFc s ->
+  forall usum x, hwire_occ s t x ->
+  exists l, get_hwires s SOutside false usum x = Some l /\ NoDup l /\
+            (forall b, In b l <-> (hlink_occ s t x b \/ hlink_occ s t b x)).
+Proof. exact get_hwires_OUTSIDE_wire. Qed.
+Print Assumptions C12_outside_from_wire.
+
+Theorem C12_outside_from_wire_excludes_start : forall s t,
+  Inv1a s -> Inv2a s -> WFk s -> is_root s t -> WFc s ->
+  forall usum x l, hwire_occ s t x -> get_hwires s SOutside false usum x = Some l -> ~ In x l.
+Proof. exact get_hwires_OUTSIDE_wire_excludes_start. Qed.
+Print Assumptions C12_outside_from_wire_excludes_start.
+
+Theorem C12_both_from_wire : forall s t, Inv1a s -> Inv2a s -> WFk s -> is_root s t -> WFc s ->
+  forall usum x, hwire_occ s t x ->
+  exists l, get_hwires s SBoth false usum x = Some l /\ NoDup l /\
+            (forall b, In b l <-> (b = x \/ hlink_occ s t x b \/ hlink_occ s t b x)).
+Proof. exact get_hwires_BOTH_wire. Qed.
+Print Assumptions C12_both_from_wire.
+
+Theorem C12_inside_from_port : forall s t, Inv1a s -> Inv2a s -> WFk s -> is_root s t ->
+  forall usum q x p, is_rpath s t (x :: p) -> In q (ports_of s x) ->
+  exists l, get_hwires s SInside false usum (q :: x :: p) = Some l /\ NoDup l /\
+            (forall b, In b l <-> exists i w c, In i (kids s RPins q) /\ ipwire s i = Some w /\
+                                                par s RWires w = Some c /\ b = w :: c :: x :: p).
+Proof. exact get_hwires_INSIDE_port. Qed.
+Print Assumptions C12_inside_from_port.
+
+Theorem C12_outside_from_port : forall s t, Inv1a s -> Inv2a s -> WFk s -> is_root s t ->
+  forall usum q x x' p', is_rpath s t (x :: x' :: p') -> In q (ports_of s x) ->
+  exists l, get_hwires s SOutside false usum (q :: x :: x' :: p') = Some l /\ NoDup l /\
+            (forall b, In b l <-> exists i w c, In i (kids s RPins q) /\
+                                                assoc i (ipins s x) = Some (Some w) /\
+                                                par s RWires w = Some c /\ b = w :: c :: x' :: p').
+Proof. exact get_hwires_OUTSIDE_port. Qed.
+Print Assumptions C12_outside_from_port.
+
+Theorem C12_inside_from_cable : forall s t, Inv1a s -> Inv2a s -> WFk s -> is_root s t ->
+  forall usum c x p, is_rpath s t (x :: p) -> In c (cables_of s x) ->
+  exists l, get_hwires s SInside false usum (c :: x :: p) = Some l /\ NoDup l /\
+            (forall b, In b l <-> exists w, In w (kids s RWires c) /\ b = w :: c :: x :: p).
+Proof. exact get_hwires_INSIDE_cable. Qed.
+Print Assumptions C12_inside_from_cable.
+
+Theorem C12_outside_from_cable : forall s t, Inv1a s -> Inv2a s -> WFk s -> is_root s t -> WFc s ->
+  forall usum c x p, is_rpath s t (x :: p) -> In c (cables_of s x) ->
+  exists l, get_hwires s SOutside false usum (c :: x :: p) = Some l /\ NoDup l /\
+            (forall b, In b l <-> exists w, In w (kids s RWires c) /\
+                                            (hlink_occ s t (w :: c :: x :: p) b \/
+                                             hlink_occ s t b (w :: c :: x :: p))).
+Proof. exact get_hwires_OUTSIDE_cable. Qed.
+Print Assumptions C12_outside_from_cable.
+
+(* satisfiable: a wire occurrence with a crossing; OUTSIDE returns the other side only, from either
+   side; INSIDE the wire itself; OUTSIDE from a two-bit port of a sub-instance gives two wires *)
+Example C12_narrow_starts_hypotheses_satisfiable_example :
+  exists s t x b q x0 x1 p lp,
+    Inv1a s /\ Inv2a s /\ WFk s /\ WFc s /\ is_root s t /\
+    hwire_occ s t x /\ hlink_occ s t x b /\
+    get_hwires s SOutside false 0 x = Some [b] /\ get_hwires s SOutside false 0 b = Some [x] /\
+    get_hwires s SInside false 0 x = Some [x] /\
+    is_rpath s t (x0 :: x1 :: p) /\ In q (ports_of s x0) /\
+    get_hwires s SOutside false 0 (q :: x0 :: x1 :: p) = Some lp /\ length lp = 2.
+Proof. exact C12_narrow_starts_hypotheses_satisfiable. Qed.
+
+(* ---- full statement: wire, pin, port and cable starts (unions over their pins / wires) and
+        get_hcables; proved below (C12_full_holds), and with the absence of duplicates added to
+        every conjunct (C12_full_nodup_holds) ---- *)
 Definition C12_full : Prop := forall s t,
   Inv1a s -> Inv2a s -> WFk s -> WFc s -> is_root s t ->
   forall n U, acyclic s -> top s n = Some t -> all_hwires s n = Some U ->
@@ -133,3 +322,40 @@ Definition C12_full : Prop := forall s t,
   /\ (forall x, hwire_occ s t x ->
      exists l, get_hcables s SAll false (pin_weight s U) x = Some l /\
                (forall k, In k l <-> exists b, Conn.conn s t x b /\ k = tl b)).
+
+Theorem C12_full_holds : C12_full.
+Proof. exact C12_full_proof. Qed.
+Print Assumptions C12_full_holds.
+
+(* the same with "each once" in every conjunct, and get_hcables from every kind of start *)
+Definition C12_full_nodup : Prop := forall s t,
+  Inv1a s -> Inv2a s -> WFk s -> WFc s -> is_root s t ->
+  forall n U, acyclic s -> top s n = Some t -> all_hwires s n = Some U ->
+  (forall x, hwire_occ s t x ->
+     (exists l, get_hwires_ALL s (pin_weight s U) x = Some l /\ NoDup l /\
+                (forall b, In b l <-> Conn.conn s t x b)) /\
+     (exists l, get_hcables s SAll false (pin_weight s U) x = Some l /\ NoDup l /\
+                (forall k, In k l <-> exists b, Conn.conn s t x b /\ k = tl b)))
+  /\ (forall a, hpin_occ s t a ->
+     (exists l, get_hwires s SAll false (pin_weight s U) a = Some l /\ NoDup l /\
+                (forall b, In b l <-> exists x, In x (nb_sel s SAll a) /\ Conn.conn s t x b)) /\
+     (exists l, get_hcables s SAll false (pin_weight s U) a = Some l /\ NoDup l /\
+                (forall k, In k l <-> exists x b, In x (nb_sel s SAll a) /\ Conn.conn s t x b /\ k = tl b)))
+  /\ (forall q x p, is_rpath s t (x :: p) -> In q (ports_of s x) ->
+     (exists l, get_hwires s SAll false (pin_weight s U) (q :: x :: p) = Some l /\ NoDup l /\
+                (forall b, In b l <-> exists i y, In i (kids s RPins q) /\
+                                                  In y (nb_sel s SAll (i :: q :: x :: p)) /\ Conn.conn s t y b)) /\
+     (exists l, get_hcables s SAll false (pin_weight s U) (q :: x :: p) = Some l /\ NoDup l /\
+                (forall k, In k l <-> exists i y b, In i (kids s RPins q) /\
+                                                    In y (nb_sel s SAll (i :: q :: x :: p)) /\
+                                                    Conn.conn s t y b /\ k = tl b)))
+  /\ (forall c x p, is_rpath s t (x :: p) -> In c (cables_of s x) ->
+     (exists l, get_hwires s SAll false (pin_weight s U) (c :: x :: p) = Some l /\ NoDup l /\
+                (forall b, In b l <-> exists w, In w (kids s RWires c) /\ Conn.conn s t (w :: c :: x :: p) b)) /\
+     (exists l, get_hcables s SAll false (pin_weight s U) (c :: x :: p) = Some l /\ NoDup l /\
+                (forall k, In k l <-> exists w b, In w (kids s RWires c) /\
+                                                  Conn.conn s t (w :: c :: x :: p) b /\ k = tl b))).
+
+Theorem C12_full_nodup_holds : C12_full_nodup.
+Proof. exact C12_full_nodup_proof. Qed.
+Print Assumptions C12_full_nodup_holds.
